@@ -1712,6 +1712,24 @@ def _release_activation(
         state.flow_states[activator_uid].child_flow_uids.remove(flow_state.uid)
 
 
+def _drop_queued_flow_starts(state: State, flow_state: FlowState) -> None:
+    """Remove the flow starts of an ended instance from the queue of internal events.
+
+    For other flows the start is ignored when it is processed since the sender is done by
+    then; the main flow is waiting for its next start instead."""
+    for event in list(state.internal_events):
+        if (
+            event.name == InternalEvents.START_FLOW
+            and event.arguments.get("source_flow_instance_uid") == flow_state.uid
+            and not event.arguments.get("activated")
+        ):
+            state.internal_events.remove(event)
+            log.info(
+                "Start of flow '%s' dropped, the starting flow has ended",
+                event.arguments.get("flow_id"),
+            )
+
+
 def _abort_flow(
     state: State,
     flow_state: FlowState,
@@ -1788,6 +1806,7 @@ def _abort_flow(
         flow_state.status = FlowStatus.WAITING
         flow_state.heads = {head_uid: new_head}
         _flow_head_changed(state, flow_state, new_head)
+        _drop_queued_flow_starts(state, flow_state)
         log.info("Main flow failed and restarting...")
         return
 
@@ -1905,6 +1924,7 @@ def _finish_flow(
         _flow_head_changed(state, flow_state, new_head)
         flow_state.heads = {head_uid: new_head}
         flow_state.status = FlowStatus.WAITING
+        _drop_queued_flow_starts(state, flow_state)
         log.info("Main flow finished and restarting...")
         return
 
